@@ -218,8 +218,10 @@ Token::firstCharacterOptions Token::analyzeFirstCharacter(RangeToken* const rang
 
                 ret = getChild(i)->analyzeFirstCharacter(rangeTok, options, tokFactory);
 
+                // one alternative that can start with any character makes the whole
+                // union start with any character, whatever the earlier alternatives were
                 if (ret == FC_ANY)
-                    break;
+                    return FC_ANY;
                 else
                     hasEmpty = true;
             }
@@ -228,9 +230,12 @@ Token::firstCharacterOptions Token::analyzeFirstCharacter(RangeToken* const rang
     case T_CLOSURE:
     case T_NONGREEDYCLOSURE:
         {
+            // a repeated sub-expression that can start with any character (a '.', a
+            // back reference) makes the head-character set of the whole expression
+            // unusable: the closure may be entered, so FC_ANY must not be dropped
             Token* tok = getChild(0);
-            if (tok)
-                tok->analyzeFirstCharacter(rangeTok, options, tokFactory);
+            if (tok && tok->analyzeFirstCharacter(rangeTok, options, tokFactory) == FC_ANY)
+                return FC_ANY;
             return FC_CONTINUE;
         }
     case T_DOT:
